@@ -330,6 +330,10 @@ def run_one(spec: dict) -> dict:
             w.probe("same_text_two_providers")
         w.session_nonempty[t.idx] = False
         w.log(t.idx, "run.start", [run["tag"], run["dialect"], pkey])
+        if run["dialect"] == "tsql":
+            w.probe("tsql_split_mode")
+        if run.get("silent"):
+            w.probe("silent_mode")
         fired_at = None
         out = []
         try:
@@ -457,12 +461,36 @@ def execute(arg: dict) -> dict:
 # generator
 
 
-def gen_run(g, tag, provider, allow_faults=True, legacy_p=0.5):
+def gen_tsql_run(g, tag, provider):
+    """tsql split mode: statements are not separated by semicolons; the analyzer keeps a per-run split cache."""
+    n = g.choice([2, 3, 4])
+    stmts = []
+    for i in range(n):
+        src = g.choice(sorted(BASE_META) + UNIVERSE)
+        tgt = g.choice(UNIVERSE)
+        if g.random() < 0.3:
+            stmts.append(f"INSERT INTO {tgt} SELECT * FROM {src}")
+        else:
+            c = g.choice(BASE_META.get(src) or [f"u_{tag}_{i}"])
+            stmts.append(f"INSERT INTO {tgt} SELECT {c} AS c_{tag}_{i} FROM {src}")
+    accessors = g.sample(ACC_POOL, 3)
+    return {"tag": tag, "script": stmts, "sep": "\n", "dialect": "tsql", "provider": provider, "faults": [], "silent": False,
+            "cfg": {"TSQL_NO_SEMICOLON": True}, "accessors": accessors}
+
+
+def gen_run(g, tag, provider, allow_faults=True, legacy_p=0.5, special=True):
+    if special and g.random() < 0.1:
+        return gen_tsql_run(g, tag, provider)
     dialect = "non-validating" if g.random() < legacy_p else "ansi"
     sg = ScriptGen(g, tag)
     script = sg.script(g.choice([2, 3, 3, 4, 5]))
     faults = []
     silent = False
+    if special and dialect == "ansi" and g.random() < 0.08:
+        # silent mode: an unsupported statement is skipped with a warning instead of failing the run
+        script.insert(g.randrange(len(script) + 1), BAD_UNSUPPORTED)
+        silent = True
+        allow_faults = False
     if allow_faults:
         r = g.random()
         if r < 0.18:
@@ -543,8 +571,8 @@ def sweep_specs() -> list[dict]:
     out = []
     for ws in FIXED_WORKLOAD_SEEDS:
         g = stream(ws, "c12-sweep")
-        base = gen_run(g, f"w{ws}", 0, allow_faults=False, legacy_p=0.5)
-        follow = gen_run(g, f"f{ws}", 0, allow_faults=False, legacy_p=0.5)
+        base = gen_run(g, f"w{ws}", 0, allow_faults=False, legacy_p=0.5, special=False)
+        follow = gen_run(g, f"f{ws}", 0, allow_faults=False, legacy_p=0.5, special=False)
         n = len(base["script"])
         variants = []
         for k in range(n + 1):
